@@ -377,8 +377,9 @@ example : ConcatCompatible [2, 3] [2, 1] 1 := ⟨rfl, by decide, by intro j hj; 
 example : (concatenateView [2, 3] [2, 1] (some 1)).map (fun v => (v.dst, v.map [1, 2], v.map [1, 3])) =
     some ([2, 4], some (false, [1, 2]), some (true, [1, 0])) := by decide
 
-/-! ### roll (domain of the element theorems: `|shift| ≤ extent`; the unchanged code wraps once only, so a larger shift
-    leaves the axis — `roll_large_shift_counterexample`, known finding roll.large-shift, DESIGN F5) -/
+/-! ### roll (every shift sign and magnitude; accepted axes incl. negative; axis None; several distinct axes).
+    The single-wrap defect (DESIGN F5) was repaired in /repo ("fix: roll wraps shifts larger than the extent"):
+    `normalize_roll_index` is now `index % n` (+ `n` if negative), proved here to be the mathematical modulo. -/
 
 /-- an axis in `[-dim, dim)` is accepted and the shape is unchanged (NumPy) -/
 theorem roll_shape (s : Shape) (shift axis : Int) (k : Nat) (hk : normalizeAxis1 axis s.length = some k) :
@@ -390,10 +391,10 @@ theorem roll_nothing (s : Shape) (shift axis : Int) (h : axis < -(s.length : Int
     rollView s shift axis = none := by
   simp [rollView, rollAxesView, shapeRoll, normalizeAxis1_none axis s.length h]
 
-/-- `out[…, x, …] = a[…, (x - shift) mod n, …]` for every accepted axis (negative ones included), `|shift| ≤ n` -/
+/-- `out[…, x, …] = a[…, (x - shift) mod n, …]` for every accepted axis (negative ones included) and EVERY shift -/
 theorem roll_elem (s : Shape) (shift axis : Int) (k : Nat) (hk : normalizeAxis1 axis s.length = some k)
     (v : IxView) (hv : rollView s shift axis = some v) (d : Idx) (hd : InShape d s)
-    (n x : Nat) (hn : s[k]? = some n) (hx : d[k]? = some x) (h1 : -(n : Int) ≤ shift) (h2 : shift ≤ (n : Int)) :
+    (n x : Nat) (hn : s[k]? = some n) (hx : d[k]? = some x) :
     v.map d = some (d.set k (rollSrc n x shift)) := by
   simp only [rollView, rollAxesView, shapeRoll, hk, List.all_cons, List.all_nil, Option.isSome_some, Bool.and_self,
     if_true, Option.map_some, Option.some.injEq] at hv
@@ -403,10 +404,9 @@ theorem roll_elem (s : Shape) (shift axis : Int) (k : Nat) (hk : normalizeAxis1 
   have e1 : s[k] = n := by simpa [hkn] using hn
   have e2 : d[k] = x := by simpa [hkd] using hx
   subst e1 e2
-  simp [indexRollU_single s d shift axis k hk hd h1 h2]
+  simp [indexRollU_single s d shift axis k hk hd]
 
 theorem roll_inBounds (s : Shape) (shift axis : Int) (k : Nat) (hk : normalizeAxis1 axis s.length = some k)
-    (n : Nat) (hn : s[k]? = some n) (h1 : -(n : Int) ≤ shift) (h2 : shift ≤ (n : Int))
     (v : IxView) (hv : rollView s shift axis = some v) : v.InBounds := by
   have hkn := (normalizeAxis1_some axis _ k hk).1
   have hsrc : v.src = s ∧ v.dst = s := by
@@ -416,14 +416,13 @@ theorem roll_inBounds (s : Shape) (shift axis : Int) (k : Nat) (hk : normalizeAx
   rw [hsrc.2] at hd
   rw [hsrc.1]
   have hkd : k < d.length := by have := hd.length_eq; omega
-  rw [roll_elem s shift axis k hk v hv d hd n d[k] hn (by simp [hkd]) h1 h2] at hi
+  rw [roll_elem s shift axis k hk v hv d hd s[k] d[k] (by simp [hkn]) (by simp [hkd])] at hi
   simp only [Option.some.injEq] at hi
   subst hi
-  have e1 : s[k] = n := by simpa [hkn] using hn
-  have hpos : 0 < n := by
+  have hpos : 0 < s[k] := by
     have := ((inShape_iff_forall _ _).1 hd).2 k hkd hkn
     omega
-  have := inShape_set (k := k) (x := rollSrc n d[k] shift) (e := s[k]) hd (by rw [e1]; exact rollSrc_lt n _ shift hpos)
+  have := inShape_set (k := k) (x := rollSrc s[k] d[k] shift) (e := s[k]) hd (rollSrc_lt s[k] _ shift hpos)
   simpa using this
 
 /-- axis None: same shape, never Nothing -/
@@ -431,15 +430,15 @@ theorem rollNone_shape (s : Shape) (shift : Int) :
     ∃ v, rollNoneView s shift = some v ∧ v.src = s ∧ v.dst = s := by
   simp [rollNoneView, rollView, rollAxesView, shapeRoll, normalizeAxis1, IxView.comp, reshapeViewRaw]
 
-/-- axis None: `out.flat[j] = a.flat[(j - shift) mod size]`, `|shift| ≤ size` -/
-theorem rollNone_elem (s : Shape) (shift : Int) (h1 : -(prod s : Int) ≤ shift) (h2 : shift ≤ (prod s : Int))
+/-- axis None: `out.flat[j] = a.flat[(j - shift) mod size]` for every shift -/
+theorem rollNone_elem (s : Shape) (shift : Int)
     (v : IxView) (hv : rollNoneView s shift = some v) (d : Idx) (hd : InShape d s) :
     v.map d = some (ndindex s (rollSrc (prod s) (computeOffset d (strides s)) shift)) := by
   have hoff := offset_lt hd
   have hk0 : normalizeAxis1 0 [prod s].length = some 0 := by simp [normalizeAxis1]
   obtain ⟨r, hr, hr1, hr2⟩ := roll_shape [prod s] shift 0 0 hk0
   have hmap := roll_elem [prod s] shift 0 0 hk0 r hr [computeOffset d (strides s)] (by simp [InShape, hoff])
-    (prod s) (computeOffset d (strides s)) (by simp) (by simp) h1 h2
+    (prod s) (computeOffset d (strides s)) (by simp) (by simp)
   simp only [rollNoneView, hr, Option.map_some, Option.some.injEq] at hv
   subst hv
   have e0 : reshapeIdx [prod s] s d = [computeOffset d (strides s)] := by
@@ -447,31 +446,27 @@ theorem rollNone_elem (s : Shape) (shift : Int) (h1 : -(prod s : Int) ≤ shift)
   simp only [IxView.comp, reshapeViewRaw, Option.bind_some, e0, hmap, List.set_cons_zero]
   simp [reshapeIdx, strides, prod, computeOffset, ndindex]
 
-theorem rollNone_inBounds (s : Shape) (hs : Pos s) (shift : Int) (h1 : -(prod s : Int) ≤ shift) (h2 : shift ≤ (prod s : Int))
+theorem rollNone_inBounds (s : Shape) (hs : Pos s) (shift : Int)
     (v : IxView) (hv : rollNoneView s shift = some v) : v.InBounds := by
   obtain ⟨w, hw, h3, h4⟩ := rollNone_shape s shift
   rw [hv] at hw; simp only [Option.some.injEq] at hw; subst hw
   intro d hd i hi
   rw [h4] at hd
-  rw [rollNone_elem s shift h1 h2 v hv d hd] at hi
+  rw [rollNone_elem s shift v hv d hd] at hi
   simp only [Option.some.injEq] at hi
   subst hi
   rw [h3]
   exact indices_inShape hs _
-
-/-- the per-axis shift bound of the element theorems: `|shifts[i]| ≤ s[ks[i]]` -/
-def RollDom (s : Shape) (ks : List Nat) (shifts : List Int) : Prop :=
-  ∀ (i k : Nat) (sh : Int), ks[i]? = some k → shifts[i]? = some sh → ∃ n : Nat, s[k]? = some n ∧ -(n : Int) ≤ sh ∧ sh ≤ (n : Int)
 
 /-- several axes: accepted (each in `[-dim, dim)`) ⇒ the view exists with the source shape -/
 theorem rollAxes_shape (s : Shape) (shifts axes : List Int) (ks : List Nat) (hk : AxesNorm s.length axes ks) :
     ∃ v, rollAxesView s shifts axes = some v ∧ v.src = s ∧ v.dst = s := by
   simp [rollAxesView, shapeRoll_of_axesNorm s axes ks hk]
 
-/-- several pairwise distinct axes, one shift each (`|shift| ≤ extent`): every listed axis `j = ks[i]` reads
+/-- several pairwise distinct axes, one shift each (any magnitude): every listed axis `j = ks[i]` reads
     `(d[j] - shifts[i]) mod s[j]`, every other coordinate is copied — NumPy's element -/
 theorem rollAxes_elem (s : Shape) (shifts axes : List Int) (ks : List Nat) (hk : AxesNorm s.length axes ks)
-    (hlen : shifts.length = axes.length) (hnd : ks.Nodup) (hdom : RollDom s ks shifts)
+    (hlen : shifts.length = axes.length) (hnd : ks.Nodup)
     (v : IxView) (hv : rollAxesView s shifts axes = some v) (d : Idx) (hd : InShape d s) :
     ∃ r, v.map d = some r ∧ r.length = d.length ∧
       ∀ j, (j ∉ ks → r[j]? = d[j]?) ∧
@@ -479,18 +474,18 @@ theorem rollAxes_elem (s : Shape) (shifts axes : List Int) (ks : List Nat) (hk :
           ∃ n x : Nat, s[j]? = some n ∧ d[j]? = some x ∧ r[j]? = some (rollSrc n x sh)) := by
   simp only [rollAxesView, shapeRoll_of_axesNorm s axes ks hk, Option.map_some, Option.some.injEq] at hv
   subst hv
-  obtain ⟨r, hr, hrl, hspec⟩ := indexRollLoop_spec s d hd axes ks shifts d hk hlen hdom rfl
+  obtain ⟨r, hr, hrl, hspec⟩ := indexRollLoop_spec s d hd axes ks shifts d hk hlen rfl
   refine ⟨r, by simp [indexRollU, hr], hrl, fun j => ⟨(hspec j).1, (hspec j).2 hnd⟩⟩
 
 theorem rollAxes_inBounds (s : Shape) (shifts axes : List Int) (ks : List Nat) (hk : AxesNorm s.length axes ks)
-    (hlen : shifts.length = axes.length) (hnd : ks.Nodup) (hdom : RollDom s ks shifts)
+    (hlen : shifts.length = axes.length) (hnd : ks.Nodup)
     (v : IxView) (hv : rollAxesView s shifts axes = some v) : v.InBounds := by
   obtain ⟨w, hw, h3, h4⟩ := rollAxes_shape s shifts axes ks hk
   rw [hv] at hw; simp only [Option.some.injEq] at hw; subst hw
   intro d hd i hi
   rw [h4] at hd
   rw [h3]
-  obtain ⟨r, hr, hrl, hspec⟩ := rollAxes_elem s shifts axes ks hk hlen hnd hdom v hv d hd
+  obtain ⟨r, hr, hrl, hspec⟩ := rollAxes_elem s shifts axes ks hk hlen hnd v hv d hd
   rw [hr] at hi
   simp only [Option.some.injEq] at hi
   subst hi
@@ -514,15 +509,14 @@ theorem rollAxes_inBounds (s : Shape) (shifts axes : List Int) (ks : List Nat) (
       simpa [h1, hjd] using this
     rw [e]; exact hdj
 
-/-- the unchanged code wraps once: `roll(a, 2, axis 0)` on extent 1 reads index 2^64-1 (NumPy: `(0-2) mod 1 = 0`) -/
-theorem roll_large_shift_counterexample :
-    (rollView [1] 2 0).bind (·.map [0]) ≠ some [rollSrc 1 0 2] := by decide
-
 /-- a repeated axis keeps only the last shift where NumPy adds them up: `roll(a, (1,1), (0,0))` on extent 3 reads
     `(0-1) mod 3 = 2` at destination 0, NumPy reads `(0-2) mod 3 = 1` -/
 theorem roll_repeated_axis_counterexample :
     (rollAxesView [3] [1, 1] [0, 0]).bind (·.map [0]) ≠ some [rollSrc 3 0 (1 + 1)] := by decide
 
+/-- shifts beyond the extent wrap (regression guard for the repaired single-wrap defect) -/
+example : (rollView [3] 7 0).bind (·.map [0]) = some [rollSrc 3 0 7] := by decide
+example : (rollView [3] (-8) 0).bind (·.map [1]) = some [0] := by decide
 example : normalizeAxis1 (-1) 2 = some 1 := by decide
 example : AxesNorm 2 [-1, 0] [1, 0] := .cons (by decide) (.cons (by decide) .nil)
 example : (rollAxesView [2, 3] [1, -2] [-1, 0]).map (·.map [1, 2]) = some (some [1, 1]) := by decide
